@@ -271,7 +271,9 @@ def _index(case, ctx, kern, x1, x2, D):
         negint = any(isinstance(e, int) and e < 0 for e in expr[-2:]) if len(expr) >= 2 and expr[0] != "..." or (expr and expr[0] == "..." and any(isinstance(e, int) and e < 0 for e in expr[1:])) else False
         fresh = kern(x1, x2)  # a fresh lazy tensor per expression: no evaluated-kernel cache carried over
         try:
+            _before = [(e, e.clone()) for e in idx if torch.is_tensor(e)]
             got = _dense(fresh[idx_arg])
+            ctx.expect("index_tensors_not_mutated", all(torch.equal(e, c_) for e, c_ in _before), f"lazy[{expr}] changed the caller's index tensor in place")
         except Exception as e:
             ctx.fail("lazy_index", f"lazy[{expr}] raised {type(e).__name__}: {str(e)[:120]}", "raise", exc=type(e).__name__, idx=expr, kinds=kinds, negint=negint)
             continue
